@@ -31,6 +31,8 @@ pub enum Scenario {
     Downstream { with_features: bool, seqs: Vec<Seq> },
     /// 0 ArcMutex, 1 ArcRwLock, 2 static Mutex, 3 static RwLock
     Threads { variant: u8, threads: u8, increments: u32 },
+    /// like Threads, but the first thread holds one of its mutable borrows for `hold_ms` while the others wait
+    LongHold { variant: u8, threads: u8, hold_ms: u32 },
     /// the static_* macros: clones alias one static, distinct call sites are distinct objects
     Statics,
 }
@@ -65,6 +67,9 @@ fn static_rw_lock_ref() -> Reference<i64> {
 static STATICS_GUARD: Mutex<()> = Mutex::new(());
 
 fn stress(variant: u8, threads: u8, increments: u32) -> Result<(), Violation> {
+    stress_hold(variant, threads, increments, 0)
+}
+fn stress_hold(variant: u8, threads: u8, increments: u32, hold_ms: u32) -> Result<(), Violation> {
     let _g = STATICS_GUARD.lock().unwrap_or_else(|e| e.into_inner());
     let (am, arw) = (Arc::new(Mutex::new(0i64)), Arc::new(RwLock::new(0i64)));
     let name = ["ArcMutex", "ArcRwLock", "static Mutex", "static RwLock"][variant as usize % 4];
@@ -74,9 +79,13 @@ fn stress(variant: u8, threads: u8, increments: u32) -> Result<(), Violation> {
         _ => {}
     }
     std::thread::scope(|sc| {
-        for _ in 0..threads {
+        for ti in 0..threads {
             let (am, arw) = (am.clone(), arw.clone());
             sc.spawn(move || {
+                if hold_ms > 0 && ti > 0 {
+                    // let the holder take the lock first
+                    std::thread::sleep(std::time::Duration::from_millis(50));
+                }
                 // every thread builds its own Reference over the shared Arc / static
                 let r: Reference<i64> = match variant % 4 {
                     0 => Reference::from_arc_mutex(am),
@@ -89,6 +98,9 @@ fn stress(variant: u8, threads: u8, increments: u32) -> Result<(), Violation> {
                     let v = *b;
                     if i % 64 == 0 {
                         std::thread::yield_now(); // widen the race window
+                    }
+                    if hold_ms > 0 && ti == 0 && i == 0 {
+                        std::thread::sleep(std::time::Duration::from_millis(hold_ms as u64));
                     }
                     *b = v + 1;
                 }
@@ -182,6 +194,15 @@ pub fn check(s: &Scenario) -> CheckResult {
             stress(*variant, *threads, *increments)?;
             Ok(CaseInfo::new(true, hash_of(&(variant % 4, *threads, *increments))).class("multi-thread increments"))
         }
+        Scenario::LongHold { variant, threads, hold_ms } => {
+            // a waiting thread may be kept waiting arbitrarily long by the schedule: it must still not lose its updates
+            let r = catch(|| stress_hold(*variant, *threads, 200, *hold_ms));
+            match r {
+                Ok(r) => r?,
+                Err(m) => return Err(Violation::new(format!("C17/lost-update/long-hold/{}", variant % 4), format!("a thread waiting {} ms for a mutable borrow held by another thread panicked instead of waiting: {}", hold_ms, m))),
+            }
+            Ok(CaseInfo::new(true, hash_of(&("hold", variant % 4, *threads, *hold_ms))).class("long-held borrow under contention"))
+        }
         Scenario::Statics => {
             statics()?;
             Ok(CaseInfo::new(true, 17).class("static_* macros"))
@@ -213,7 +234,8 @@ impl Property for C17 {
     fn cases(tier: Tier) -> u32 {
         tier.pick(8_000, 40_000)
     }
-    fn exhaustive(_tier: Tier, sink: &mut dyn FnMut(Scenario)) -> Vec<String> {
+    fn exhaustive(tier: Tier, sink: &mut dyn FnMut(Scenario)) -> Vec<String> {
+        let _tier_hold: u32 = tier.pick(1_300, 4_000);
         sink(Scenario::Statics);
         // every variant x every pair of ops (length-2 prefixes) followed by a fixed tail, in all three crates
         let alphabet = [SOp::Clone(0), SOp::ToDyn(0), SOp::Read(1), SOp::Write(1, 5), SOp::Drop(0), SOp::ToDyn(1)];
@@ -238,6 +260,9 @@ impl Property for C17 {
         }
         for variant in 0..4u8 {
             sink(Scenario::Threads { variant, threads: 4, increments: 20_000 });
+        }
+        for variant in 0..4u8 {
+            sink(Scenario::LongHold { variant, threads: 3, hold_ms: _tier_hold });
         }
         vec![format!("6 variants x all 3-op prefixes over a 6-letter alphabet + fixed tail ({} sequences) in each of the three crates; static_* macros; one stress run per lock variant", n)]
     }
